@@ -59,6 +59,31 @@ def always_called(prog, body, callee_name):
     return False, "only conditional calls: %s" % [sorted(cnd.lit_str(l) for l in c.must_literals(bi)) for bi in sites]
 
 
+def check_eviction(rep, prog, rid="FM-7"):
+    """a full per-master message list evicts its OLDEST entry and appends the new one at the end, so the last entry stays
+    the most recent (take_qualified_announce_messages relies on that order). Shared with C11 (ANN-6)."""
+    # ---------------- FM-7
+    try:
+        fr = one(prog, "register_announce_message", "ForeignMaster")
+        c = cnd.conds(prog, fr)
+        pv = c.prov
+        rem = [(bi, t) for bi, t, cal in mir.iter_calls(fr, name="remove")]
+        ok = False
+        for (bi, t) in rem:
+            idx = df.strip(pv.op_tree(t["args"][1]))
+            lits = c.must_literals(bi)
+            full = any(l[0] == "variant" and l[2] == frozenset(["Err"]) and "try_push" in df.tree_str(l[1]) for l in lits)
+            if idx == ("const", 0) and full:
+                ok = True
+        if ok:
+            rep.ok(rid, fr.key, "evict index 0 when full", where=fr.loc())
+        else:
+            rep.violation(rid, fr.key, "evict index 0 when full",
+                          "a full announce message list does not evict its oldest entry (index 0) to make room", where=fr.loc())
+    except AnchorMissing as e:
+        rep.anchor_missing(rid, str(e))
+
+
 def run(ctx):
     rep = ctx.report
     prog = ctx.prog("default")
@@ -359,23 +384,4 @@ def run(ctx):
     except AnchorMissing as e:
         rep.anchor_missing("FM-6", str(e))
 
-    # ---------------- FM-7
-    try:
-        fr = one(prog, "register_announce_message", "ForeignMaster")
-        c = cnd.conds(prog, fr)
-        pv = c.prov
-        rem = [(bi, t) for bi, t, cal in mir.iter_calls(fr, name="remove")]
-        ok = False
-        for (bi, t) in rem:
-            idx = df.strip(pv.op_tree(t["args"][1]))
-            lits = c.must_literals(bi)
-            full = any(l[0] == "variant" and l[2] == frozenset(["Err"]) and "try_push" in df.tree_str(l[1]) for l in lits)
-            if idx == ("const", 0) and full:
-                ok = True
-        if ok:
-            rep.ok("FM-7", fr.key, "evict index 0 when full", where=fr.loc())
-        else:
-            rep.violation("FM-7", fr.key, "evict index 0 when full",
-                          "a full announce message list does not evict its oldest entry (index 0) to make room", where=fr.loc())
-    except AnchorMissing as e:
-        rep.anchor_missing("FM-7", str(e))
+    check_eviction(rep, prog)
